@@ -35,7 +35,7 @@ package didkey
 //@   benign
 //@ func unmarshalEC
 //@   prop C18
-//@   assume-benign
+//@   modifies nothing
 //@ func ssi.MustParseURI
 //@   trusted
 //@   benign
